@@ -23,6 +23,7 @@ static void child_run(void *ud) {
   ctx_t c;
   ctx_init(&c, m4sim_libs[0]);
   heap_arm_fail(-1);
+  heap_config(fnv1a(a->text, strlen(a->text), FNV0), FILL_A5, RECYCLE_OFF, 0); /* fixed non-zero content of fresh heap memory */
   const char *p = a->text;
   int lineno = 0, armed = 0;
   char line[512];
